@@ -61,8 +61,8 @@ def register_raising():
 
 def plan(tier):
     if tier == "quick":
-        return {"shards": 16, "trees": 90, "calls": 18, "timeout": 300}
-    return {"shards": 16, "trees": 4000, "calls": 24, "timeout": 3000}
+        return {"shards": 16, "trees": 90, "calls": 18, "timeout": 900}
+    return {"shards": 16, "trees": 4000, "calls": 24, "timeout": 7200}
 
 
 def shared_prop_ids(spec):
